@@ -23,7 +23,27 @@ def _is_plain_local_store(st, locals_ok):
     return False
 
 
-def summary(fnode, name_map=None, call_alias=None, unroll=(0, 1, 2), ignore_calls=(), env=None, drop_doc=True):
+def _tracked(st, b, track_calls):
+    out = []
+    if not track_calls:
+        return out
+    for n in ast.walk(st):
+        if isinstance(n, (ast.FunctionDef, ast.Lambda)):
+            continue
+        if isinstance(n, ast.Call) and isinstance(n.func, ast.Name):
+            name = b.name_map.get(n.func.id, n.func.id)
+            if name in track_calls:
+                out.append(('eval', name, tuple(T.simp(b.t(a)) for a in n.args)))
+    return out
+
+
+def block(stmts, name='block'):
+    """wrap a statement list as a function so it can be summarised"""
+    return ast.FunctionDef(name=name, args=ast.arguments(posonlyargs=[], args=[], kwonlyargs=[], kw_defaults=[], defaults=[]),
+                           body=list(stmts), decorator_list=[], lineno=getattr(stmts[0], 'lineno', 0), col_offset=0)
+
+
+def summary(fnode, name_map=None, call_alias=None, unroll=(0, 1, 2), ignore_calls=(), env=None, drop_doc=True, track_calls=()):
     paths = enumerate_paths(fnode, unroll=unroll)
     out = set()
     for p in paths:
@@ -54,6 +74,7 @@ def summary(fnode, name_map=None, call_alias=None, unroll=(0, 1, 2), ignore_call
                 st = e[1]
                 if isinstance(st, ast.Expr) and isinstance(st.value, ast.Constant):
                     continue   # docstring
+                effects.extend(_tracked(st, b, track_calls))
                 if isinstance(st, ast.Return):
                     outcome = ('return', T.simp(b.t(st.value)) if st.value is not None else ('const', None))
                 elif isinstance(st, ast.Raise):
